@@ -139,6 +139,8 @@ func processRequest(msg *message.Message, data *HandlingDataManager) (action.Act
 	args := readRequestArgs(msg)
 	log.Trace().Msgf("On request args: %+v\n", args)
 	if data.IsStreamsEnabled() {
+		// one engine instance for the whole message, also across a reload
+		stream := data.getStream()
 		apiStream := stream_types.NewRequestAPIStream(args, sharedState)
 		if args.IsFullRequest() {
 			defer apiStream.StoreRequest()
@@ -149,10 +151,10 @@ func processRequest(msg *message.Message, data *HandlingDataManager) (action.Act
 		flowActions := &stream_config.StreamActions{
 			Request: &stream_config.RequestStream{},
 		}
-		if err = runner.RunFlow(data.stream, apiStream, flowActions); err == nil {
+		if err = runner.RunFlow(stream, apiStream, flowActions); err == nil {
 			actions = getSPOEReqActions(args, flowActions.Request.Actions)
 		}
-		data.GetMetricManager().UpdateMetricsForFlow(data.stream)
+		data.GetMetricManager().UpdateMetricsForFlow(stream)
 	} else {
 		// This is a patch for the legacy mode body parsing
 		args.Body = bytes.NewBuffer(args.RawBody).String()
@@ -178,6 +180,7 @@ func processResponse(msg *message.Message, data *HandlingDataManager) (action.Ac
 	log.Trace().Msgf("On response args: %+v\n", args)
 
 	if data.IsStreamsEnabled() {
+		stream := data.getStream()
 		apiStream := stream_types.NewResponseAPIStream(args, sharedState)
 		if args.IsFullResponse() {
 			defer apiStream.DiscardRequest()
@@ -188,10 +191,10 @@ func processResponse(msg *message.Message, data *HandlingDataManager) (action.Ac
 		flowActions := &stream_config.StreamActions{
 			Response: &stream_config.ResponseStream{},
 		}
-		if err = runner.RunFlow(data.stream, apiStream, flowActions); err == nil {
+		if err = runner.RunFlow(stream, apiStream, flowActions); err == nil {
 			actions = getSPOERespActions(args, flowActions.Response.Actions)
 		}
-		data.GetMetricManager().UpdateMetricsForFlow(data.stream)
+		data.GetMetricManager().UpdateMetricsForFlow(stream)
 	} else {
 		// This is a patch for the legacy mode body parsing
 		args.Body = bytes.NewBuffer(args.RawBody).String()
